@@ -23,12 +23,12 @@ def _maybe_long_run(rng, tier, case):
     """Rarely: more than 2**20 unrecorded filler events are scheduled between the triggering of an ordinary occurrence
     and of an interrupt that fall due at the same instant (sequence counters, tie-breakers, packed sort keys)."""
     if rng.random() < (1 / 2500 if tier == 'quick' else 1 / 1200):
-        n = 2 ** 20 + rng.randint(-400, 500)      # the counter passes 2**20 before, or in the middle of, the program's own events
+        n = 2 ** 20 + rng.randint(50, 500)
         d = rng.choice([1, 2, 3])
         # created first: the interrupter (wakes first at t0+d), then the victim (its timeout is triggered early), then the
         # ticker that burns the event counter at t0
         burst = []
-        if rng.random() < 0.7:
+        if rng.random() < 0.5:
             # right after the filler, a burst of interrupts for one victim issued in one action: with the counter a few
             # steps away from 2**20 their sequence numbers straddle it
             n = 2 ** 20 - rng.randint(0, 40)
